@@ -646,6 +646,10 @@ func (ls *LState) raiseError(level int, format string, args ...interface{}) {
 		message = fmt.Sprintf(format, args...)
 	}
 	if level > 0 {
+		if level > 1 && ls.currentFrame != nil && ls.currentFrame.Fn.IsG {
+			// raised from a host function (error, L.Error): level 0 is that function itself
+			level++
+		}
 		message = fmt.Sprintf("%v %v", ls.where(level-1, true), message)
 	}
 	if ls.reg.IsFull() {
